@@ -402,7 +402,7 @@ def rule_time(body, counts):
 
 def rule_r14_body(body, counts):
     """R14: `for (k, v) in &MAP {` -> `for (k, v) in MAP.iter() {` (definition of IntoIterator for &HashMap / &Vec)."""
-    new, n = re.subn(r'\bfor (\([\w, ]+\)) in &([A-Za-z_][\w\.]*) \{', r'for \1 in \2.iter() {', body)
+    new, n = re.subn(r'\bfor (\([\w, ]+\)|\w+) in &([A-Za-z_][\w\.]*) \{', r'for \1 in \2.iter() {', body)
     if n:
         counts['R14'] = counts.get('R14', 0) + n
     return new
